@@ -1,0 +1,39 @@
+//go:build verif
+
+package sn2core
+
+// Contracts for gocv (contract-based deductive verification, /verif).
+
+//@ opaque type github.com/NethermindEth/juno/core/felt.Felt
+
+// ---- pre-confirmed updates never touch what readers already hold (C20) ---------------------------
+// AdaptPreConfirmedWithDelta builds the next pre-confirmed entry from the one that views may
+// already hold. "current is not modified": nothing reachable from current is written (the frame:
+// no pre-existing location changes), every state-diff merge goes INTO a diff whose maps were made
+// by this call, and the event bloom is merged INTO the bloom built by this call.
+//@ func AdaptTransaction
+//@   trusted
+//@ func AdaptStateDiff
+//@   trusted
+//@ func AdaptTransactionReceipt
+//@   trusted
+//@ extern func github.com/NethermindEth/juno/core.EmptyStateDiff
+//@   ensures fresh(result.StorageDiffs) && fresh(result.Nonces) && fresh(result.DeployedContracts) && fresh(result.DeclaredV1Classes) && fresh(result.ReplacedClasses) && fresh(result.MigratedClasses) && fresh(result.DeclaredV0Classes)
+//@ extern func github.com/NethermindEth/juno/core.(*StateDiff).Merge
+//@   logged as DiffMerge
+//@ extern func github.com/NethermindEth/juno/core.EventsBloom
+//@   ensures result != nil && fresh(result)
+//@ extern func github.com/bits-and-blooms/bloom/v3.(*BloomFilter).Merge
+//@   logged as BloomMerge
+//@ func AdaptPreConfirmedWithDelta
+//@   props C20
+//@   arith int
+//@   nosafe
+//@   requires current != nil && delta != nil && current.Block != nil && current.Block.Header != nil && current.StateUpdate != nil
+//@   assigns calls_DiffMerge, arg_DiffMerge_d, arg_DiffMerge_incoming, calls_BloomMerge, arg_BloomMerge_f, arg_BloomMerge_g
+//@   callsite StateDiff.Merge@*: into_maps_of_its_own: $0 != nil && fresh($0) && fresh($0.StorageDiffs) && fresh($0.Nonces) && fresh($0.DeployedContracts) && fresh($0.DeclaredV1Classes) && fresh($0.ReplacedClasses) && fresh($0.MigratedClasses)
+//@   callsite BloomFilter.Merge@*: into_a_bloom_of_its_own: $0 != nil && fresh($0)
+//@   loop 1: invariant own_maps: fresh(nextStateDiff.StorageDiffs) && fresh(nextStateDiff.Nonces) && fresh(nextStateDiff.DeployedContracts) && fresh(nextStateDiff.DeclaredV1Classes) && fresh(nextStateDiff.ReplacedClasses) && fresh(nextStateDiff.MigratedClasses)
+//@   loop 1: invariant own_slices: fresh(mergedTxs) && fresh(mergedReceipts) && fresh(mergedStateDiffs) && len(mergedTxs) == n + addedCount && len(mergedReceipts) == n + addedCount && len(mergedStateDiffs) == n + addedCount && n >= 0
+//@   ensures new_entry: result1 == nil ==> result0.Block != nil && fresh(result0.Block) && result0.Block.Header != nil && fresh(result0.Block.Header) && result0.StateUpdate != nil && fresh(result0.StateUpdate) && result0.StateUpdate.StateDiff != nil && fresh(result0.StateUpdate.StateDiff)
+//@   ensures same_round: result1 == nil ==> result0.BlockIdentifier == current.BlockIdentifier && current.BlockIdentifier == delta.BlockIdentifier
